@@ -278,6 +278,14 @@ def parseTypeDef : Sexp → Option TypeDef
   | .list [.atom "struct", ident, name, doc, .list aliases, .atom rule, .list (.atom "fields" :: fields)] => do
     pure (.struct (← atomBytes? ident) (← atomBytes? name) (← optBytes? doc) (← aliases.mapM atomBytes?) (← ruleOf rule)
             (← fields.mapM parseFieldDef))
+  | .list [.atom "enumrepr", repr, ident, name, doc, .list aliases, .atom rule, .atom rulef, .list (.atom "variants" :: vs)] => do
+    let r : EnumRepr ← (match repr with
+      | .atom "bare" => some .bareUnion
+      | .list [.atom "tagcontent", t, c] => do pure (.tagContent (← atomBytes? t) (← atomBytes? c))
+      | .list [.atom "internal", t] => do pure (.internalTag (← atomBytes? t))
+      | _ => none)
+    pure (.enumRepr r (← atomBytes? ident) (← atomBytes? name) (← optBytes? doc) (← aliases.mapM atomBytes?) (← ruleOf rule) (← ruleOf rulef)
+            (← vs.mapM parseVariantDef))
   | .list [.atom "transparent", ident, .list (.atom "fields" :: fields)] => do
     pure (.transparent (← atomBytes? ident) (← fields.mapM parseFieldDef))
   | .list [.atom "enum", ident, name, doc, .list aliases, .atom rule, .atom rulef, .list (.atom "variants" :: vs)] => do
